@@ -183,6 +183,10 @@ def run_impl(cases):
     return res
 
 
+SEQ_PROFILES = [(1, {"kinds": {"ping": 6, "comp": 1, "timer": 0.5, "chan": 1}, "n_setup": (2, 4), "script_prob": 0.95, "script_len": (1, 4),
+                     "share_fd_prob": 0.0, "err_ret_prob": 0.0, "ping_cb_prob": 0.7})]
+
+
 def main(tier, seed):
     chk = vlib.Check("C03", tier, seed)
     st = vlib.standard_front(chk)
@@ -226,7 +230,15 @@ def main(tier, seed):
             why.append("runner: %s" % mlog[:300])
         chk.violation("broken", "C03 is no longer shown to hold.\n" + "\n".join(why) +
                       "\nthe oracle judged all %d schedules of this run on real threads: no failing input found\n%s" % (len(cases), diffs[0][0] if diffs else ""), nofail=True)
-    return chk.finish()
+    # ---- second stage: single-threaded histories of ping / clone / drop (also from inside callbacks) / disable / enable /
+    # dispatch on the sequential loop model, judged by the C03 rules of py/oracles.py
+    import oracles
+    import p_seqprops
+    import seqcheck
+    return seqcheck.run_seq_check("C03", tier, seed, SEQ_PROFILES, oracles.oracle_for(["C03"]), 500, 12000,
+                                  ["second stage: sequential scenarios rich in ping sources whose callbacks ping, clone and drop handles (py/gen_seq.py)"],
+                                  known_classifier=p_seqprops.classify, stage_of=(chk, st))
+
 
 
 def replay(path):
